@@ -350,6 +350,23 @@ func (m *material) run(o op) string {
 		}
 	case "sm2_sign":
 		i := o.Arg % len(m.msgs)
+		if o.Sel%2 == 1 {
+			// a nonce stream of this goroutine's own, handed out a few bytes at a time with the processor yielded in between:
+			// the signature must be the one GM/T 0003.2 gives for THIS stream's nonce, whatever other signers do meanwhile
+			k := new(big.Int).Add(new(big.Int).Lsh(big.NewInt(int64(o.Arg+1)), 200), big.NewInt(int64(o.Sel)*7919+13))
+			rd := &yieldingReader{sm2x.NewNonceReader(sm2x.BlockForNonce(k))}
+			rd.r.(*sm2x.NonceReader).Chunk = 1 + o.Sel%9
+			r, s2, err := sm2.Sm2Sign(m.priv, m.msgs[i], nil, rd)
+			if err != nil {
+				return "Sm2Sign error: " + err.Error()
+			}
+			e, _ := rsm2.Std.E(m.pub, rsm2.DefaultUID, m.msgs[i])
+			wr, ws, ok := rsm2.Std.SignE(m.d, e, k)
+			if ok && (r.Cmp(wr) != 0 || s2.Cmp(ws) != 0) {
+				return fmt.Sprintf("signature made concurrently from a nonce stream of its own is not the one the standard gives for that nonce: r=%x want %x", r, wr)
+			}
+			return ""
+		}
 		sig, err := m.priv.Sign(rand.Reader, m.msgs[i], nil)
 		if err != nil {
 			return "Sign error: " + err.Error()
